@@ -2,6 +2,7 @@ import SqiProofs.LllOps
 import SqiProofs.LllCheck
 import SqiProofs.LllDim2
 import SqiProofs.LllGuard
+import SqiProofs.LllGram
 /- Property C16 — "Lattice reduction keeps the lattice and reduces it; responses are short".
    Property theorems only (+ non-vacuity examples); lemmas live in SqiProofs/Lll*.lean, models in
    SqiModel/{Lll,Dim2}.lean (tied to the C code by the correspondence / certificate harness tools/props/c16.py). -/
@@ -76,7 +77,7 @@ theorem lllCheck_sound {dn dd en ed q : Int} {lat red : Mat4} (h : lllCheck dn d
 
 /-- classical consequence: if `η² < δ` the first vector of an accepted basis satisfies
     `|b_1|² (δ-η²)^i ≤ |b*_{i+1}|²` for every i, and `|b_1|⁸ (δ-η²)⁶ ≤ Π|b*_i|²`
-    (= Gram determinant `q² det(L)²`; that last identification is classical and NOT proved here). -/
+    (= Gram determinant `q² det(L)²`, see `lllCheck_prod_B_eq_det` / `lllCheck_first_vector_short_det`). -/
 theorem lllCheck_first_vector_short {dn dd en ed q : Int} {lat red : Mat4}
     (h : lllCheck dn dd en ed q lat red = true) (hη : ((en : ℚ) / ed) ^ 2 < (dn : ℚ) / dd) :
     (∀ i : Fin 4, ((dn : ℚ) / dd - ((en : ℚ) / ed) ^ 2) ^ (i : ℕ) * formQ q (colsQ red 0) (colsQ red 0)
@@ -85,6 +86,42 @@ theorem lllCheck_first_vector_short {dn dd en ed q : Int} {lat red : Mat4}
         ≤ Bn q (colsQ red) 0 * Bn q (colsQ red) 1 * Bn q (colsQ red) 2 * Bn q (colsQ red) 3 := by
   obtain ⟨_, hpos, hS, hL⟩ := lllCheck_sound h
   exact ⟨first_vector_le hS hL hpos hη, first_vector_pow_le hS hL hpos hη⟩
+
+/-- the product of the Gram-Schmidt norms of an accepted basis IS the Gram determinant of the lattice:
+    `B_1 B_2 B_3 B_4 = q² det(red)² = q² det(lattice)²` (orthogonal factorisation `R = M·S`, `M` unit triangular,
+    `S D Sᵀ = diag(B)`; same lattice ⇒ equal squared determinants). -/
+theorem lllCheck_prod_B_eq_det {dn dd en ed q : Int} {lat red : Mat4} (h : lllCheck dn dd en ed q lat red = true) :
+    Bn q (colsQ red) 0 * Bn q (colsQ red) 1 * Bn q (colsQ red) 2 * Bn q (colsQ red) 3
+      = (q : ℚ) ^ 2 * (((toM lat).det : ℤ) : ℚ) ^ 2 := by
+  obtain ⟨_, hpos, _, _⟩ := lllCheck_sound h
+  have hprod := SqiProofs.LllGram.prod_Bn_cols q red hpos
+  have hq : (0 : ℚ) < q := by
+    simp only [lllCheck, Bool.and_eq_true, decide_eq_true_eq] at h
+    exact_mod_cast h.1.1.1.1.1
+  have hdred : (toM red).det ≠ 0 := by
+    intro hz
+    have : (0 : ℚ) < Bn q (colsQ red) 0 * Bn q (colsQ red) 1 * Bn q (colsQ red) 2 * Bn q (colsQ red) 3 :=
+      mul_pos (mul_pos (mul_pos (hpos 0) (hpos 1)) (hpos 2)) (hpos 3)
+    rw [hprod, hz] at this
+    simp at this
+  have hsame : sameRowLattice lat.transpose red.transpose = true := by
+    simp only [lllCheck, Bool.and_eq_true] at h
+    exact h.1.2
+  have hdt : (toM red.transpose).det ≠ 0 := by rw [toM_transpose, Matrix.det_transpose]; exact hdred
+  have hsq := SqiProofs.LllGram.det_sq_of_sameRowLattice hsame hdt
+  rw [toM_transpose, toM_transpose, Matrix.det_transpose, Matrix.det_transpose] at hsq
+  rw [hprod]
+  have : (((toM red).det : ℤ) : ℚ) ^ 2 = (((toM lat).det : ℤ) : ℚ) ^ 2 := by exact_mod_cast hsq
+  rw [this]
+
+/-- **the classical LLL bound in terms of the lattice determinant**: for an accepted output with `η² < δ`,
+    `(δ-η²)⁶ · ‖b_1‖⁸ ≤ q² · det(lattice)²`, i.e. `‖b_1‖² ≤ (δ-η²)^{-3/2} · (q·|det L|)^{1/2}`. -/
+theorem lllCheck_first_vector_short_det {dn dd en ed q : Int} {lat red : Mat4}
+    (h : lllCheck dn dd en ed q lat red = true) (hη : ((en : ℚ) / ed) ^ 2 < (dn : ℚ) / dd) :
+    ((dn : ℚ) / dd - ((en : ℚ) / ed) ^ 2) ^ 6 * (formQ q (colsQ red 0) (colsQ red 0)) ^ 4
+      ≤ (q : ℚ) ^ 2 * (((toM lat).det : ℤ) : ℚ) ^ 2 := by
+  rw [← lllCheck_prod_B_eq_det h]
+  exact (lllCheck_first_vector_short h hη).2
 
 /-- post-condition on the return value demanded by the property (and evaluated by the harness on every call):
     rank-deficient input ⇒ `-1`; full rank ⇒ `0` and an accepted certificate. -/
